@@ -433,15 +433,17 @@ def compile_ast(
                 # differently and the matches get attached to the wrong left rows.
                 df = df.with_columns(__INDEX__=pl.int_range(0, pl.len(), dtype=pl.Int64)).cache()
 
+            # polars deletes the right column in equality predicates... (a right column may occur
+            # in several equalities; it is restored once)
+            deleted_right_cols = {
+                name_in_df[right_col._uuid]: name_in_df[left_col._uuid]
+                for left_col, right_col in reversed(list(zip(left_on, right_on, strict=True)))
+                if isinstance(left_col, Col) and isinstance(right_col, Col)
+            }
             joined = df.join_where(
                 right_df,
                 *(compile_col_expr(pred, name_in_df) for pred in predicates),
-            ).with_columns(
-                # polars deletes the right column in equality predicates...
-                pl.col(name_in_df[left_col._uuid]).alias(name_in_df[right_col._uuid])
-                for left_col, right_col in zip(left_on, right_on, strict=True)
-                if isinstance(left_col, Col) and isinstance(right_col, Col)
-            )
+            ).with_columns(pl.col(left_name).alias(right_name) for right_name, left_name in deleted_right_cols.items())
 
             if nd.how == "left":
                 # only the right columns are taken from the matches: joining the left columns
